@@ -68,8 +68,8 @@ type Device struct {
 
 	eventProcessMutex *sync.Mutex
 
-	octave   int8
-	semitone int8
+	octave   int // any number of steps: a pitch outside 0-127 is simply not played
+	semitone int
 	channel  uint8
 	velocity uint8
 	// warning: currently lazy implementation
@@ -143,8 +143,8 @@ func NewDevice(
 		actionsPress:   actionsPress,
 		actionsRelease: actionsRelease,
 
-		octave:     int8(cfg.Config.Defaults.Octave),
-		semitone:   int8(cfg.Config.Defaults.Semitone),
+		octave:     cfg.Config.Defaults.Octave,
+		semitone:   cfg.Config.Defaults.Semitone,
 		channel:    uint8(cfg.Config.Defaults.Channel - 1),
 		multiNote:  []int{},
 		mapping:    cfg.Config.Defaults.Mapping,
@@ -197,7 +197,7 @@ func (d *Device) NoteOn(ev *input.InputEvent) {
 		return
 	}
 	note := key.Note
-	noteCalculatored := int(note) + int(d.octave)*12 + int(d.semitone)
+	noteCalculatored := int(note) + d.octave*12 + d.semitone
 	if noteCalculatored < 0 || noteCalculatored > 127 {
 		return
 	}
@@ -281,7 +281,7 @@ func (d *Device) noteOff(key keyID, ev *input.InputEvent) {
 }
 
 func (d *Device) AnalogNoteOn(identifier string, note byte, channelOffset byte, ev *input.InputEvent) { // TODO: multinote, collision handler
-	noteCalculatored := int(note) + int(d.octave)*12 + int(d.semitone)
+	noteCalculatored := int(note) + d.octave*12 + d.semitone
 	if noteCalculatored < 0 || noteCalculatored > 127 {
 		return
 	}
@@ -501,8 +501,8 @@ func (d *Device) Status() string {
 }
 
 type State struct {
-	Octave   int8
-	Semitone int8
+	Octave   int
+	Semitone int
 	Channel  uint8
 	Notes    int
 	Mapping  string
